@@ -2,6 +2,7 @@ package checks
 
 import (
 	"context"
+	"errors"
 	"fmt"
 	"math/rand"
 	"strings"
@@ -175,8 +176,33 @@ func c16Base(rng *rand.Rand, forceRace bool) (sig, detail string, trace []string
 	}
 	cli, conn := scen.NewBase(tr, peer)
 	conn.Chunk = []int{0, 1}[rng.Intn(2)]
+	writeFail := !refuse && !forceRace && rng.Intn(10) == 0
+	var wfSeq int
+	if writeFail {
+		// the peer is gone before CONNECT can be written
+		wfSeq = tr.Add(memnet.Event{Kind: memnet.KNote, S: "cause: peer gone between dial and CONNECT"})
+		conn.PeerClose("cause")
+	}
 	err := scen.ConnectBase(cli)
 	fail := func(s, d string) (string, string, []string, string) { return s, d, tr.Dump(50), "" }
+	if writeFail {
+		if err == nil {
+			return fail("connect-accepted-dead-connection", "Connect returned nil although CONNECT could not be written")
+		}
+		if errors.Is(err, scen.ErrConnectHung) {
+			return "inconclusive", err.Error(), nil, "" // C11's business
+		}
+		select {
+		case <-cli.Done():
+		case <-time.After(scen.Watchdog):
+			return fail("done-open-after-end", fmt.Sprintf("Connect failed (%v) because the connection was gone, but Done() never closed", err))
+		}
+		time.Sleep(50 * time.Microsecond)
+		if s, d := checkConnStates(tr.Snapshot(), conn.ID, cli, -1, wfSeq, true); s != "" {
+			return fail(s, d)
+		}
+		return "", "", nil, "connect-write-failed"
+	}
 	if refuse {
 		if err == nil {
 			return fail("connect-accepted-refusal", "Connect returned nil on a refusing CONNACK")
@@ -207,7 +233,7 @@ func c16Base(rng *rand.Rand, forceRace bool) (sig, detail string, trace []string
 	if s, d := checkConnStates(tr.Snapshot(), conn.ID, cli, -1, -1, false); s != "" {
 		return fail(s, d)
 	}
-	causes := []string{"peerclose", "localclose", "malformed", "disconnect"}
+	causes := []string{"peerclose", "localclose", "malformed", "disconnect", "inboundcut"}
 	n := 1
 	if rng.Intn(2) == 0 {
 		n = 2
@@ -255,6 +281,18 @@ func c16Base(rng *rand.Rand, forceRace bool) (sig, detail string, trace []string
 		case "malformed":
 			s := tr.Add(memnet.Event{Kind: memnet.KNote, S: "cause: malformed packet"})
 			conn.Send([]byte{0x36, 0x03, 0x00, 0x01, 'x'}, "malformed")
+			mu.Lock()
+			if firstCause < 0 || s < firstCause {
+				firstCause = s
+			}
+			mu.Unlock()
+		case "inboundcut":
+			// the peer closes right behind an inbound QoS 1/2 PUBLISH: the reader's own PUBACK/PUBREC write is what fails
+			s := tr.Add(memnet.Event{Kind: memnet.KNote, S: "cause: peer close right behind an inbound PUBLISH"})
+			tr.Mu.Lock()
+			conn.SendLocked(mqttref.EncPublish("c16/in", []byte("x"), byte(1+s%2), false, false, 77), "inbound")
+			conn.PeerCloseLocked("cause")
+			tr.Mu.Unlock()
 			mu.Lock()
 			if firstCause < 0 || s < firstCause {
 				firstCause = s
